@@ -21,7 +21,7 @@ import time
 
 from .c05m import Exec05
 from .c15 import PKG, Stop, dump, find_fns, one_fn, status_table, tok, vcenum
-from .common import EXIT_INCONCLUSIVE, EXIT_OK, EXIT_VIOLATION, LOGS, NIGHTLY, REPLAYS, REPO, STABLE, TARGET, VERIF, env_offline, run, say
+from .common import EXIT_INCONCLUSIVE, EXIT_OK, EXIT_VIOLATION, LOGS, NIGHTLY, REPLAYS, REPO, STABLE, TARGET, VERIF, env_offline, match_known, run, say
 from .mir import Panic, State, Unsupported, Val, vagg, vbool, venum, vint, vopaque
 from .mir_engine import cvc5_solver, parse_values, z3_solver
 
@@ -469,7 +469,50 @@ def run_property(prop, cfg, tier, known, only=None):
         res["samples"].append(sample)
         say(f"  [{unit:>22}] paths={sample.get('paths')} obligations={len(sample['queries'])}")
 
+        # ---- the Command API's builder: is the per-request middleware stack consulted at all?
+        unit = "command_api_middleware"
+        sample = {"unit": unit, "what": "crux_http::command::RequestBuilder::build's async block: the middleware attached with .middleware(..) takes part in sending the request", "queries": []}
+        consulted = None
+        try:
+            fnB = one_fn(mir, r"^fn command::<impl at crux_http/src/command\.rs:[\d: ]+>::build::\{closure#0\}::\{closure#0\}\(_1: Pin<&mut \{async block", "command RequestBuilder::build async block")
+            callees = sorted(set(re.findall(r"= ([^=]*?)\((?:move|copy|const|\))", "\n".join(sum(fnB.blocks.values(), [])))))
+            consulted = any(re.search(r"take_middleware|middleware::Next|Client::send|as Middleware>::handle", c) for c in callees)
+            sample.update({"mir_function": fnB.name[-70:], "callees": [c[:90] for c in callees][:24]})
+            res["obligations"] += 1
+            res["queries"] += 1
+            res["decided"] += 1
+            sample["queries"].append({"obligation": "the request's middleware stack is taken and run (take_middleware / Next::run / Client::send reached)", "holds": bool(consulted)})
+            if consulted:
+                res["discharged"] += 1
+                witnesses.add(f"{unit}: middleware consulted")
+        except (Unsupported, KeyError, IndexError, AttributeError, ValueError, TypeError) as u:
+            sample["encoder_gap"] = f"{type(u).__name__}: {u}"
+        res["samples"].append(sample)
+        say(f"  [{unit:>22}] middleware consulted: {consulted}")
+
         dev, n = native_sweep(binp)
+        cmd_dev = [d for d in dev if d[0].startswith("cmdstack-")]
+        dev = [d for d in dev if not d[0].startswith("cmdstack-")]
+        if consulted is False and cmd_dev:
+            os.makedirs(os.path.join(REPLAYS, prop), exist_ok=True)
+            rp = os.path.join(REPLAYS, prop, f"redirect-{cmd_dev[0][0]}.json")
+            json.dump({"property": prop, "engine": "mir", "module": "c16m", "scenario": cmd_dev[0][0], "real": cmd_dev[0][1], "expected": cmd_dev[0][2],
+                       "obligations": ["command_api_middleware: the middleware stack is never consulted"]}, open(rp, "w"), indent=1)
+            k = match_known(known, prop, unit, "middleware-ignored")
+            if k:
+                say(f"KNOWN-FINDING: property={prop} {k['what']} [{cmd_dev[0][0]}: real `{cmd_dev[0][1]}`, the property demands `{cmd_dev[0][2]}`]")
+                res["findings"].append({"known": True, "unit": unit, "desc": "middleware-ignored", "replay": rp})
+            else:
+                say(f"VIOLATION property={prop} replay={rp}")
+                say(f"  {unit}: the Command API never consults the middleware attached to the request; scenario {cmd_dev[0][0]}: the property demands `{cmd_dev[0][2]}`, real code -> `{cmd_dev[0][1]}`")
+                res["findings"].append({"known": False, "unit": unit, "desc": "middleware-ignored", "replay": rp})
+                state["code"] = EXIT_VIOLATION
+        elif consulted is False:
+            inconclusive(f"{unit}: the middleware stack is never consulted on the MIR, but the native cmdstack scenarios do not deviate")
+        elif consulted is None:
+            inconclusive(f"{unit}: encoder gap: {sample.get('encoder_gap')}")
+        elif cmd_dev:
+            dev += cmd_dev
         res["validated_inputs"] = n
         res["notes"].append(f"native sweep: {n} redirect scenarios (limits 0..=4 x graphs with absolute / relative / missing Location, loops, chains longer than the limit) through the real capability API vs a reference interpreter of the property: {len(dev)} deviations")
         if n < 20:
